@@ -191,23 +191,23 @@ CHECKS["C15"] = (
 EXTRA = {
     "C01": " Engines are also configured through Engine.configure on an engine built without operators, rules re-texted on the same objects and reloaded by restart(), non-General activation methods drawn in a quarter of the engines, rows with a single missing (NaN) input planted.",
     "C02": " The same engine may first process an earlier batch (another size, or the same size with the new batch written into the arrays the variables already hold); NaN rows are planted after valid and after infinite-output rows.",
-    "C03": " Includes degenerate vertical edges, overlapping PiShape halves, negative Spike widths, in-place re-parameterisation of a used term object, float32 / integer / column-major presentations and the invariant that array arguments are never mutated.",
+    "C03": " Includes Discrete terms with a vertical edge and the public sort(), rectangles unbounded on one side, degenerate vertical edges, overlapping PiShape halves, negative Spike widths, in-place re-parameterisation of a used term object, float32 / integer / column-major presentations and the invariant that array arguments are never mutated.",
     "C04": " A deterministic boundary grid (0, 1, 1/2, float neighbours, 1-2^-k, 2^-k, values within the library tolerance of 0 and 1, magnitudes whose products underflow) runs for all 16 norms in every tier; crisp degrees are also given as bool / int scalars and arrays; arguments must not be mutated.",
     "C05": " Arrays are also presented column-major and as float32; arguments must not be mutated and results must be fresh values (editing a returned array must not change the next call).",
-    "C06": " The rule is also evaluated through the rule block's activation method (General, First, Last, Highest, Lowest, Threshold) and after the same Rule object carried another weighted text.",
+    "C06": " One Term object may be registered in two input variables. The rule is also evaluated through the rule block's activation method (General, First, Last, Highest, Lowest, Threshold) and after the same Rule object carried another weighted text.",
     "C07": " Rules are also loaded repeatedly, re-texted and loaded back, or assembled through the Proposition constructor with one re-used hedge list, before being triggered.",
-    "C08": " Generated vectors include NaN degrees; every configuration is also reached through configure() and attribute assignment; a second activation runs on the same method and rule objects after public edits (parameters assigned, rules unloaded through antecedent / consequent).",
-    "C09": " Every sampled value of the aggregated set is verified against an independent S-norm / implication fold; defuzzifier objects are re-used after a resolution change; the Aggregated object's own bounds may differ from the integration range.",
-    "C10": " Defuzzifier objects and fuzzy-output objects are re-used across outputs of different kinds (the configured type must not change by use); activation_degree is also queried with fresh term objects of the same name.",
+    "C08": " Generated vectors include NaN degrees and multi-digit rule counts; every configuration is also reached through configure() and attribute assignment; a second activation runs on the same method and rule objects after public edits (parameters assigned, rules unloaded through antecedent / consequent).",
+    "C09": " A fixed corpus of integer-bound ranges runs in one process; activations of an identical term share one Term object (also with different implications), near-identical same-named terms and a full-range first activation are planted. Every sampled value of the aggregated set is verified against an independent S-norm / implication fold; defuzzifier objects are re-used after a resolution change; the Aggregated object's own bounds may differ from the integration range.",
+    "C10": " Constants may be infinite or NaN. Defuzzifier objects and fuzzy-output objects are re-used across outputs of different kinds (the configured type must not change by use); activation_degree is also queried with fresh term objects of the same name.",
     "C11": " Includes in-place re-parameterisation of a used term object, planted heights within the library tolerance of 1 and tiny heights, monotone Discrete terms in the refusal clause, and the invariant that array arguments are never mutated.",
-    "C12": " Ranges with exactly one infinite bound are included.",
-    "C13": " Histories include persistent flag flips, in-place term shifts, weights that do not survive printing, planted edit-restart-process and disable-restart-enable patterns, non-General activation methods; every restart is followed at once by a processed probe row compared with a fresh twin.",
+    "C12": " Ranges with exactly one infinite bound and default values of +-inf are included.",
+    "C13": " process() must leave the input values unchanged (rows also given as 0-d arrays; an identity Function input term under Proportional activation is planted). Histories include persistent flag flips, in-place term shifts, weights that do not survive printing, planted edit-restart-process and disable-restart-enable patterns, non-General activation methods; every restart is followed at once by a processed probe row compared with a fresh twin.",
     "C14": " Originals are built with programmatic rule weights; specs include engine-dependent Function terms in input variables and names with non-ASCII letters; the file entry points to_file / from_file are exercised.",
     "C15": " Originals are built by the one-shot constructor or incrementally, with programmatic weights, up to 8 Function substitution variables, non-ASCII names, low-decimals regimes; components are exported through to_string and through the exporter's dedicated methods, including components without terms or rules.",
-    "C16": " A fixed corpus of degenerate rule texts (empty parts, bare parentheses, a variable without terms) and the injected-error classes foreign_term / foreign_variable / missing_connective complement the mutations.",
-    "C17": " Formulas are loaded by Function.create, by configure() on a term that already holds another formula, and by the constructor; a share is evaluated under non-default atol / rtol; each is re-evaluated after the engine variable object behind a name is replaced.",
-    "C18": " The exporter object may be created before the decimals context, datasets also go through the file entry point, a rule text may be edited before exporting without reloading, and tables of more than 1024 rows over a lock-previous output with non-firing regions are planted.",
-    "C19": " Rule blocks may share a name or be unnamed (one error message per needy block is required); a ready base engine that fails to process is a violation (no masking precondition).",
+    "C16": " The rule engine holds a variable without terms; stray_comma is a further injected class. A fixed corpus of degenerate rule texts (empty parts, bare parentheses, a variable without terms) and the injected-error classes foreign_term / foreign_variable / missing_connective complement the mutations.",
+    "C17": " Literals have up to 5 decimals, near-identical twin sub-expressions are planted, one own variable is called `rate`, a scalar x may meet one-element arrays (result shape asserted), empty formulas must be rejected by every route. Formulas are loaded by Function.create, by configure() on a term that already holds another formula, and by the constructor; a share is evaluated under non-default atol / rtol; each is re-evaluated after the engine variable object behind a name is replaced.",
+    "C18": " Tables of just over 4096 rows and input variables on a descending scale are included. The exporter object may be created before the decimals context, datasets also go through the file entry point, a rule text may be edited before exporting without reloading, and tables of more than 1024 rows over a lock-previous output with non-firing regions are planted.",
+    "C19": " A term-less input variable referenced through `any` may be wired in. Rule blocks may share a name or be unnamed (one error message per needy block is required); a ready base engine that fails to process is a violation (no masking precondition).",
     "C20": " Context objects may be created before they are entered (with assignments in between), and programs also run on a second fl.Settings instance while the library-wide object must stay untouched.",
 }
 for _k, _v in EXTRA.items():
